@@ -1,16 +1,18 @@
 /-
-C09 — kernel-checked witnesses of the two known findings (both: chibicc's `subst` differs from C11 6.10.3.2–3).
+C09 — kernel-checked witnesses of the known finding C09-placemarker (chibicc's `subst` differs from C11 6.10.3.3) and,
+as a record, of the repaired defect C09-stringize-backslash-outside-literal.
 
 1. C09-placemarker.  chibicc has no placemarker token.  `#define t(x,y,z) x ## y ## z` with `t(,,)` — the standard's
    own example (6.10.3.5 EXAMPLE 5) — must expand to nothing (placemarker ## placemarker = placemarker, again, then
    the placemarker is removed); `subst` stops with "'##' cannot appear at start of macro expansion".
-2. C09-stringize-backslash-outside-literal.  `quote_string` escapes every `\` and `"` of the stringized text; C11
-   6.10.3.2p2 only those inside string literals and character constants.  `#define str(s) # s` with `str(: @\n)`
-   (6.10.3.5 EXAMPLE 4) must give `": @\n"`; `subst` gives `": @\\n"`.
+2. REPAIRED (`fix:` 6fecbd6): C09-stringize-backslash-outside-literal.  `quote_string` escaped every `\` and `"` of the
+   stringized text; C11 6.10.3.2p2 only those inside string literals and character constants.  `#define str(s) # s` with
+   `str(: @\n)` (6.10.3.5 EXAMPLE 4) must give `": @\n"`; the old `subst` gave `": @\\n"`, the present one is right.
 
 Both are evaluated by the kernel (`decide`) on the model and on the specification.
 -/
 import ChibiVerif.Props.C09
+import ChibiVerif.Lemmas.C09Stringize
 
 namespace ChibiVerif.Findings.C09
 open ChibiVerif.PP ChibiVerif.Props.C09
@@ -77,41 +79,53 @@ theorem region_not_tight :
     (modelSubst Lex.lexOne id uBody tArgs).map spell = .ok [(.ident, "a")] ∧
     (ChibiVerif.Spec.PPSpec.subst Lex.lexOne id true uBody tArgs).map spell = .ok [(.ident, "a")] := by decide
 
-/-! ### C09-stringize-backslash-outside-literal
+/-! ### REPAIRED: C09-stringize-backslash-outside-literal  (`fix:` 6fecbd6 in /repo)
 
-This region is exact at the `#` operator: `Props.C09.C09_stringize_exact` (the stringized text is the standard's iff every
-token of the argument is literal-safe). -/
+Before the repair `stringize` was `quote_string(join_tokens(arg))` (`stringizeOld`, Lemmas/C09Stringize.lean): every `\`
+and `"` of the stringized text was escaped, also those outside literals.  The witnesses below are kept as a record: the
+OLD formula on the standard's own example differs from the specification, the present `stringize` does not — for this
+argument by evaluation, for every argument by `Props.C09.C09_stringize_spec`.  The old formula was wrong on exactly the
+arguments outside `StringizeLiteralSafe` (`stringizeOld_ne_spec`). -/
 
 /-- replacement list of `#define str(s) # s` -/
 def strBody : List Tok := [tk "#" .punct true, tk "s" .ident true]
 /-- the argument of `str(: @\n)`: the tokens `:` `@` `\` `n` -/
-def strArgs : List MacroArg :=
-  [{ name := "s", toks := [tk ":" .punct, tk "@" .punct true, tk "\\" .punct, tk "n" .ident] }]
+def strToks : List Tok := [tk ":" .punct, tk "@" .punct true, tk "\\" .punct, tk "n" .ident]
+def strArgs : List MacroArg := [{ name := "s", toks := strToks }]
 
+/-- the witness lies in the former region -/
 theorem bs_witness_in_region : ¬ StringizeLiteralSafe strBody strArgs := by decide
 
-theorem bs_model : (modelSubst Lex.lexOne id strBody strArgs).map spell = .ok [(.str, "\": @\\\\n\"")] := by decide
+/-- **repaired** (was known finding C09-stringize-backslash-outside-literal): the formula before `fix:` 6fecbd6 gives
+    `": @\\n"` for C11 6.10.3.5 EXAMPLE 4, the standard and the present code give `": @\n"` -/
+theorem repaired_stringize_backslash :
+    (stringizeOld (tk "#" .punct true) strToks).text = "\": @\\\\n\"" ∧
+    (ChibiVerif.Spec.PPSpec.stringizeSpec (tk "#" .punct true) strToks).text = "\": @\\n\"" ∧
+    (stringize (tk "#" .punct true) strToks).text = "\": @\\n\"" := by decide
+
+/-- the old formula was wrong on every argument with a `\` or `"` outside a literal, not only on the witness -/
+theorem old_formula_wrong_in_region (hash : Tok) (arg : List Tok) (h : ∃ t ∈ arg, strSafeTok t = false) :
+    (stringizeOld hash arg).text ≠ (ChibiVerif.Spec.PPSpec.stringizeSpec hash arg).text :=
+  stringizeOld_ne_spec hash arg h
+
+theorem bs_model : (modelSubst Lex.lexOne id strBody strArgs).map spell = .ok [(.str, "\": @\\n\"")] := by decide
 
 theorem bs_spec : (ChibiVerif.Spec.PPSpec.subst Lex.lexOne id true strBody strArgs).map spell = .ok [(.str, "\": @\\n\"")] := by
   decide
 
-/-- **known finding C09-stringize-backslash-outside-literal**: the full statement is false on this witness too -/
-theorem C09_finding_stringize_backslash :
-    ∃ s, ChibiVerif.Spec.PPSpec.subst Lex.lexOne id true strBody strArgs = .ok s ∧
-      ¬ ∃ m, modelSubst Lex.lexOne id strBody strArgs = .ok m ∧ spell m = spell s := by
-  refine ⟨[{ kind := .str, text := "\": @\\n\"", hasSpace := true }], by decide, ?_⟩
-  rintro ⟨m, hm, hs⟩
-  have h1 := bs_model
-  rw [hm] at h1
-  simp only [Except.map, Except.ok.injEq] at h1
-  rw [h1] at hs
-  revert hs
-  decide
-
-/-- inside a string literal the escaping is right: `str("a\n")` -/
+/-- inside a string literal the escaping is (and was) right: `str("a\n")` -/
 theorem bs_literal_ok :
     (modelSubst Lex.lexOne id strBody [{ name := "s", toks := [tk "\"a\\n\"" .str] }]).map spell =
     (ChibiVerif.Spec.PPSpec.subst Lex.lexOne id true strBody [{ name := "s", toks := [tk "\"a\\n\"" .str] }]).map spell := by
   decide
+
+/-- where the model stops following the C function (`Props.C09.C09_stringize_wellformed` needs its hypothesis): for
+    `str(\)` the buffer is `"\"`, `tokenize()` reports "unclosed string literal" — undefined behaviour by 6.10.3.2p2, not
+    compared by the check; for `str(\"a")` the buffer `"\\"a\""` is four tokens for the lexer and the C function keeps
+    only the first -/
+theorem stringize_buffer_not_a_literal :
+    Lex.lexOne (stringize (tk "#" .punct) [tk "\\" .punct]).text = .error ∧
+    (stringize (tk "#" .punct) [tk "\\" .punct, tk "\"a\"" .str]).text = "\"\\\\\"a\\\"\"" ∧
+    Lex.lexOne (stringize (tk "#" .punct) [tk "\\" .punct, tk "\"a\"" .str]).text = .many := by decide +kernel
 
 end ChibiVerif.Findings.C09
